@@ -1,37 +1,433 @@
 /-
-  C04 — the block / combine / finalize decomposition of every built-in aggregation is exact, and a block in which the
-  group is absent (or present only as NaN) is neutral.
+  C04 — the block / combine / finalize decomposition of each aggregation is exact; fills are neutral; a user-supplied
+  `Aggregation` is executed by the same machinery and obeys the same law.
 
-    §1  one intermediate column: combine (per-block intermediates) = intermediate (concatenated members), for every
-        split of a group's members into ordered parts – empty and all-NaN parts included
-    §2  absent / all-NaN blocks are neutral
-    §3  finalizers: `sum / count = mean`, one-pass variance from (sum of squares, sum, count) = two-pass `np.var(ddof)`
-    §4  arg-reductions: the (value, index) PAIR law
-    §5  tie to the live registry: every `_initialize_aggregation` row regenerated from the running code resolves to a
-        blueprint all of whose columns obey §1/§2 and whose finalizer is one of §3
+  Property theorems only (helper lemmas: FloxProofs/Columns, Tree, Finalize, IntFill, RegistryProven, UserAgg).
 
-  Vocabulary (FloxModel / FloxProofs):
-    `blockVal k f ms`     what the block stage stores for a group whose members inside the block are `ms` (chunk kernel
-                          `k`; the intermediate fill `f` when `ms = []`; for NaN-skipping kernels on all-NaN members the
-                          kernel's identity for nansum / nanprod / count / nansum-of-squares and `f` otherwise)
-    `combineVal c xs`     `_simple_combine`: the NumPy function named by the combine kernel `c` over the stacked
-                          per-block values `xs`
-    `floatColumns`        the 15 (chunk kernel, combine kernel, intermediate fill) triples of the built-in blueprints on
-                          floating data: sum, nansum, prod, nanprod, max, nanmax, min, nanmin, count (`nanlen`),
-                          sum-of-squares, nansum-of-squares, all, any, nanfirst, nanlast
-    `kEval k ms`          the NumPy reduction `k` of the member list `ms` (the specification side)
-    `onepass ddof sq s c` flox's `_var_finalize`: `(sq - s*s/c) / (c - ddof)`, NaN when `c ≤ ddof`
-
-  Arithmetic is exact (`Val` = rationals + NaN + ±inf with IEEE rules): rounding is not modelled, see C20.
-  Property theorems only (helper lemmas live in FloxProofs).  User-defined `Aggregation` objects: see the last section.
+  Sections
+    A. the decomposition law per column, absent / all-NaN blocks, tree shape          (basic restatements)
+    B. finalizers: mean / var from their 2- and 3-column intermediates                (basic restatements)
+    C. integer dtypes: max / min / nanmax / nanmin with a finite fill
+    D. the registry tie (`registry_proven` …): the live blueprints are the proven ones
+    E. user-defined aggregations
 -/
 import FloxProofs.Columns
+import FloxProofs.Tree
 import FloxProofs.Finalize
+import FloxProofs.IntFill
+import FloxProofs.RegistryProven
+import FloxProofs.UserAgg
+import FloxProofs.ArgValue
+import FloxProofs.EndToEnd
 import FloxProofs.ArgReduce
 import FloxProofs.ArgReduceExamples
 import FloxProofs.TableShape
 
 namespace Flox.C04
+
+open Flox
+
+/-! ## A. column law, neutral blocks, tree shape -/
+
+/-- **Decomposition of one intermediate column.**  For every built-in column (chunk kernel `k`, combine kernel `c`,
+    resolved fill `f`), reducing the parts of ANY ordered split of a group's members separately (an empty part = a
+    block where the group is absent ↦ the fill; an all-NaN part allowed) and merging with `c` gives the
+    intermediate of the concatenation. -/
+theorem decompose_column (k c : Kernel) (f : Val) (h : (k, c, f) ∈ floatColumns)
+    (parts : List (List Val)) (hne : parts ≠ []) :
+    combineVal c (parts.map (blockVal k f)) = blockVal k f parts.flatten :=
+  combine_parts k c f h parts hne
+
+/-- for a group that is present and (for NaN-skipping kernels) not all-NaN, the intermediate IS the NumPy kernel on
+    the members: single-column aggregations need no finalizer -/
+theorem column_is_kernel (k : Kernel) (f : Val) (ms : List Val) (hne : ms ≠ [])
+    (hvalid : k.skipsNaN = true → dropNaN ms ≠ []) : blockVal k f ms = kEval k ms := by
+  unfold blockVal
+  have h1 : ms.isEmpty = false := by cases ms <;> simp_all
+  rw [h1]
+  cases hs : k.skipsNaN
+  · simp
+  · have : (dropNaN ms).isEmpty = false := by
+      have := hvalid hs
+      cases hd : dropNaN ms <;> simp_all
+    simp [this]
+
+/-- **Decompose: finalize ∘ combine over parts = the eager kernel on the concatenation** (single-column family) -/
+theorem decompose (k c : Kernel) (f : Val) (h : (k, c, f) ∈ floatColumns)
+    (parts : List (List Val)) (hne : parts.flatten ≠ [])
+    (hvalid : k.skipsNaN = true → dropNaN parts.flatten ≠ []) :
+    combineVal c (parts.map (blockVal k f)) = kEval k parts.flatten := by
+  have hp : parts ≠ [] := by intro e; subst e; exact hne rfl
+  rw [combine_parts k c f h parts hp, column_is_kernel k f _ hne hvalid]
+
+/-- **Absent / all-NaN blocks are neutral**: inserting, anywhere among the (≥ 1) other blocks, a block where the
+    group is absent, or (NaN-skipping kernels) present only as NaN, does not change the merged value. -/
+theorem absent_block_neutral (k c : Kernel) (f : Val) (h : (k, c, f) ∈ floatColumns)
+    (p : List Val) (hp : p = [] ∨ (k.skipsNaN = true ∧ ∀ x ∈ p, x.isNaN = true))
+    (l₁ l₂ : List (List Val)) (hne : l₁ ++ l₂ ≠ []) :
+    combineVal c ((l₁ ++ p :: l₂).map (blockVal k f)) = combineVal c ((l₁ ++ l₂).map (blockVal k f)) :=
+  Flox.absent_block_neutral k c f h p hp l₁ l₂ hne
+
+/-- **Tree shape is irrelevant**: any two reduction trees (any bracketing / `split_every` / depth / placement of
+    absent blocks) over the same ordered members give the same value -/
+theorem tree_shape_irrelevant (k c : Kernel) (f : Val) (h : (k, c, f) ∈ floatColumns)
+    (t₁ t₂ : PTree) (hl : t₁.leaves = t₂.leaves) : t₁.eval k c f = t₂.eval k c f :=
+  PTree.eval_congr k c f h t₁ t₂ hl
+
+example : combineVal .nanmax ([[.fin 1, .nan], [], [.nan], [.fin (-2), .fin 3]].map (blockVal .nanmax Val.ninf))
+    = Val.fin 3 := by decide +kernel
+
+/-! ## B. finalizers -/
+
+/-- mean: `sum / count` of the merged (sum, count) intermediates = `np.mean` of all members, for every split -/
+theorem decompose_mean (parts : List (List Val)) (hne : parts ≠ []) :
+    Val.div (combineVal .sum (parts.map (blockVal .sum Val.zero)))
+        (combineVal .sum (parts.map (blockVal .nanlen Val.zero)))
+      = kEval .mean parts.flatten := by
+  rw [combine_parts .sum .sum Val.zero (by decide +kernel) parts hne,
+    combine_parts .nanlen .sum Val.zero (by decide +kernel) parts hne, mean_finalize]
+
+theorem decompose_nanmean (parts : List (List Val)) (hne : parts ≠ []) :
+    Val.div (combineVal .sum (parts.map (blockVal .nansum Val.zero)))
+        (combineVal .sum (parts.map (blockVal .nanlen Val.zero)))
+      = kEval .nanmean parts.flatten := by
+  rw [combine_parts .nansum .sum Val.zero (by decide +kernel) parts hne,
+    combine_parts .nanlen .sum Val.zero (by decide +kernel) parts hne, nanmean_finalize]
+
+/-- var / std (the model returns the variance for both): the one-pass finalizer on the merged
+    (sum of squares, sum, count) = two-pass `np.var(ddof)` of all members (exact arithmetic) -/
+theorem decompose_var (ddof : Nat) (parts : List (List Val)) (hne : parts ≠ []) :
+    onepass ddof (combineVal .sum (parts.map (blockVal .sumsq Val.zero)))
+        (combineVal .sum (parts.map (blockVal .sum Val.zero)))
+        (combineVal .sum (parts.map (blockVal .nanlen Val.zero)))
+      = kEval (.var ddof) parts.flatten := by
+  rw [combine_parts .sumsq .sum Val.zero (by decide +kernel) parts hne,
+    combine_parts .sum .sum Val.zero (by decide +kernel) parts hne,
+    combine_parts .nanlen .sum Val.zero (by decide +kernel) parts hne, var_finalize]
+
+theorem decompose_nanvar (ddof : Nat) (parts : List (List Val)) (hne : parts ≠ []) :
+    onepass ddof (combineVal .sum (parts.map (blockVal .nansumsq Val.zero)))
+        (combineVal .sum (parts.map (blockVal .nansum Val.zero)))
+        (combineVal .sum (parts.map (blockVal .nanlen Val.zero)))
+      = kEval (.nanvar ddof) parts.flatten := by
+  rw [combine_parts .nansumsq .sum Val.zero (by decide +kernel) parts hne,
+    combine_parts .nansum .sum Val.zero (by decide +kernel) parts hne,
+    combine_parts .nanlen .sum Val.zero (by decide +kernel) parts hne, nanvar_finalize]
+
+example : kEval (.var 1) [Val.fin 1, .fin 2, .fin 6] = Val.fin 7 := by decide +kernel
+example : onepass 1 (combineVal .sum ([[Val.fin 1], [], [.fin 2, .fin 6]].map (blockVal .sumsq Val.zero)))
+    (combineVal .sum ([[Val.fin 1], [], [.fin 2, .fin 6]].map (blockVal .sum Val.zero)))
+    (combineVal .sum ([[Val.fin 1], [], [.fin 2, .fin 6]].map (blockVal .nanlen Val.zero))) = Val.fin 7 := by
+  decide +kernel
+
+/-! ## C. integer dtypes: finite fills -/
+
+/-- `max` with a finite fill `f` (integer dtypes: `iinfo.min`): the column law holds when every member is ≥ `f` -/
+theorem column_max_finite_fill (f : Val) (parts : List (List Val)) (hne : parts ≠ [])
+    (hge : ∀ p ∈ parts, ∀ x ∈ p, Val.max f x = x) :
+    combineVal .max (parts.map (blockVal .max f)) = blockVal .max f parts.flatten :=
+  combine_max_fill f parts hne hge
+
+theorem column_min_finite_fill (f : Val) (parts : List (List Val)) (hne : parts ≠ [])
+    (hle : ∀ p ∈ parts, ∀ x ∈ p, Val.min f x = x) :
+    combineVal .min (parts.map (blockVal .min f)) = blockVal .min f parts.flatten :=
+  combine_min_fill f parts hne hle
+
+theorem column_nanmax_finite_fill (f : Val) (hf : f.isNaN = false) (parts : List (List Val)) (hne : parts ≠ [])
+    (hge : ∀ p ∈ parts, ∀ x ∈ p, x.isNaN = false → Val.max f x = x) :
+    combineVal .nanmax (parts.map (blockVal .nanmax f)) = blockVal .nanmax f parts.flatten :=
+  combine_nanmax_fill f hf parts hne hge
+
+theorem column_nanmin_finite_fill (f : Val) (hf : f.isNaN = false) (parts : List (List Val)) (hne : parts ≠ [])
+    (hle : ∀ p ∈ parts, ∀ x ∈ p, x.isNaN = false → Val.min f x = x) :
+    combineVal .nanmin (parts.map (blockVal .nanmin f)) = blockVal .nanmin f parts.flatten :=
+  combine_nanmin_fill f hf parts hne hle
+
+/-- signed `bits`-bit integer data satisfy the hypotheses for the dtype-extreme fills … -/
+theorem intN_data_bounded (bits : Nat) (x : Val) (h : IsIntN bits x) :
+    Val.max (intMin bits) x = x ∧ Val.min (intMax bits) x = x ∧ x.isNaN = false :=
+  ⟨intN_ge_min bits x h, intN_le_max bits x h, intN_not_nan bits x h⟩
+
+/-- … hence for int64 data with the int64 fills (−2^63 / 2^63−1) all four column laws hold -/
+theorem column_max_int64 (parts : List (List Val)) (hne : parts ≠ []) (hint : ∀ p ∈ parts, ∀ x ∈ p, IsIntN 64 x) :
+    combineVal .max (parts.map (blockVal .max (intMin 64))) = blockVal .max (intMin 64) parts.flatten
+    ∧ combineVal .nanmax (parts.map (blockVal .nanmax (intMin 64))) = blockVal .nanmax (intMin 64) parts.flatten
+    ∧ combineVal .min (parts.map (blockVal .min (intMax 64))) = blockVal .min (intMax 64) parts.flatten
+    ∧ combineVal .nanmin (parts.map (blockVal .nanmin (intMax 64))) = blockVal .nanmin (intMax 64) parts.flatten :=
+  ⟨combine_max_fill _ parts hne (fun p hp x hx => intN_ge_min 64 x (hint p hp x hx)),
+   combine_nanmax_fill _ rfl parts hne (fun p hp x hx _ => intN_ge_min 64 x (hint p hp x hx)),
+   combine_min_fill _ parts hne (fun p hp x hx => intN_le_max 64 x (hint p hp x hx)),
+   combine_nanmin_fill _ rfl parts hne (fun p hp x hx _ => intN_le_max 64 x (hint p hp x hx))⟩
+
+/-- any bound below the dtype range works too (e.g. int8 data with an int64 intermediate) -/
+theorem int_fill_below (m lo : Int) (x : Int) (hm : m ≤ lo) (hx : lo ≤ x) :
+    Val.max (Val.ofInt m) (Val.ofInt x) = Val.ofInt x :=
+  max_fin_of_le _ _ (by exact_mod_cast (Int.le_trans hm hx))
+
+theorem int_fill_above (m hi : Int) (x : Int) (hm : hi ≤ m) (hx : x ≤ hi) :
+    Val.min (Val.ofInt m) (Val.ofInt x) = Val.ofInt x :=
+  min_fin_of_ge _ _ (by exact_mod_cast (Int.le_trans hx hm))
+
+-- non-vacuity: int64 extremes among the data, one absent block
+example : combineVal .max ([[Val.ofInt (-9223372036854775808)], [], [Val.ofInt (-5)]].map (blockVal .max (intMin 64)))
+    = Val.ofInt (-5) := by decide +kernel
+example : IsIntN 64 (Val.ofInt (-9223372036854775808)) := ⟨_, rfl, by decide, by decide⟩
+
+/-- the value column of `nanargmax` / `nanargmin` (chunk and combine `nanmax` / `nanmin`, fill NaN – not one of
+    `floatColumns`): blocks where the group is absent or all-NaN contribute NaN, which the combine skips -/
+theorem column_nanarg_value (parts : List (List Val)) :
+    combineVal .nanmax (parts.map (blockVal .nanmax Val.nan)) = blockVal .nanmax Val.nan parts.flatten
+    ∧ combineVal .nanmin (parts.map (blockVal .nanmin Val.nan)) = blockVal .nanmin Val.nan parts.flatten :=
+  ⟨combine_nanmax_nanfill parts, combine_nanmin_nanfill parts⟩
+
+example : combineVal .nanmax ([[Val.nan], [], [.ninf, .nan], [.fin 2]].map (blockVal .nanmax Val.nan)) = .fin 2 := by
+  decide +kernel
+example : combineVal .nanmax ([[Val.nan], [], [.ninf, .nan]].map (blockVal .nanmax Val.nan)) = .ninf := by
+  decide +kernel
+
+/-- the hypothesis "data ≥ fill" is necessary: 0 is neutral for `max` only on non-negative data
+    (chunk "max" / combine "max" / fill 0 — the kind of blueprint a positive-data test suite cannot reject) -/
+theorem fill_not_neutral_counterexample :
+    combineVal .max ([[Val.fin (-2)], []].map (blockVal .max (Val.fin 0))) = Val.fin 0
+    ∧ blockVal .max (Val.fin 0) [[Val.fin (-2)], []].flatten = Val.fin (-2) := by decide +kernel
+
+/-! ## D. the registry tie -/
+
+/-- **Every built-in blueprint is a proven one.**  For each entry of the live `AGGREGATIONS` (regenerated table):
+    if it has a chunk function its declarative core (numpy / chunk / combine / intermediate fills / finalize /
+    reduction type) is literally that of its family in `provenBlueprints`, the family is well-formed (its columns,
+    with the fills resolved for floating dtypes, are in `floatColumns`; its finalizer is a proven one); otherwise it
+    is blockwise-only (no combine, no finalizer). -/
+theorem registry_proven : ∀ b ∈ Generated.registry, blueprintProven b = true :=
+  List.all_eq_true.mp registry_all_proven
+
+/-- **`_initialize_aggregation` resolves the fills as the proofs assume** (float64 / float32, all 16 grid cells per
+    blueprint): same chunk / combine kernels (+ the count column `nanlen` / `sum` / 0 when `min_count > 0`),
+    `NINF ↦ -inf`, `INF ↦ inf`, `NA ↦ nan`, `simple_combine` = the functions named by `combine`, same finalizer. -/
+theorem registry_float_fills_resolved :
+    ∀ b ∈ Generated.registry, hasChunk b = true → floatRowsProven b = true ∧ floatRowsCount b = 16 := by
+  intro b hb hc
+  have hmem : b ∈ Generated.registry.filter hasChunk := List.mem_filter.mpr ⟨hb, hc⟩
+  exact ⟨List.all_eq_true.mp registry_float_rows_proven b hmem,
+    by simpa using List.all_eq_true.mp registry_float_rows_exist b hmem⟩
+
+/-- **Integer dtypes**: in every row of the table for `max` / `nanmax` (`min` / `nanmin`) on an integer array dtype,
+    the resolved intermediate fill is −inf or an integer ≤ the least value of the array dtype (resp. +inf / ≥ the
+    greatest): exactly the hypothesis of `column_max_finite_fill` … -/
+theorem registry_int_fills_bound : ∀ r ∈ Generated.initRows, r.ok = true →
+    (r.func ∈ maxFamily ∨ r.func ∈ minFamily) → intRowBounded r = true := by
+  intro r hr hok hf
+  have h := List.all_eq_true.mp registry_int_rows_bounded r hr
+  have hsel : (r.ok && (maxFamily.contains r.func || minFamily.contains r.func)) = true := by
+    rcases hf with hf | hf <;> simp [hok, hf]
+  rw [hsel] at h
+  simpa using h
+
+/-- every proven family comes with its law -/
+def FamilyLaw : Family → Prop
+  | .column k c fs => ∃ v, floatFill fs = some v ∧ Law k c v
+  | .mean nan =>
+    Law (if nan then .nansum else .sum) .sum Val.zero ∧ Law .nanlen .sum Val.zero ∧
+      ∀ ms, Val.div (blockVal (if nan then .nansum else .sum) Val.zero ms) (blockVal .nanlen Val.zero ms)
+        = kEval (if nan then .nanmean else .mean) ms
+  | .var nan _ =>
+    Law (if nan then .nansumsq else .sumsq) .sum Val.zero ∧ Law (if nan then .nansum else .sum) .sum Val.zero ∧
+      Law .nanlen .sum Val.zero ∧
+      ∀ ddof ms, onepass ddof (blockVal (if nan then .nansumsq else .sumsq) Val.zero ms)
+          (blockVal (if nan then .nansum else .sum) Val.zero ms) (blockVal .nanlen Val.zero ms)
+        = kEval (if nan then .nanvar ddof else .var ddof) ms
+  | .arg k =>
+    -- the value column (the group's extreme; NaN fill for the NaN-skipping ones) decomposes; the law of the index
+    -- column given the value column ("first extreme wins", the (value, index) pair law) is the subject of C06
+    ∃ v, floatFill (argValueFill k) = some v ∧ Law (argValueKernel k) (argValueKernel k) v
+
+theorem column_law {k c : Kernel} {f : Val} (h : (k, c, f) ∈ floatColumns) : Law k c f :=
+  fun parts hne => combine_parts k c f h parts hne
+
+theorem proven_families_lawful : ∀ p ∈ provenBlueprints, p.2.wf p.1 = true → FamilyLaw p.2 := by
+  intro p _ hwf
+  obtain ⟨key, fam⟩ := p
+  cases fam with
+  | column k c fs =>
+    simp only [Family.wf, Bool.and_eq_true] at hwf
+    cases hv : floatFill fs with
+    | none => simp [hv] at hwf
+    | some v =>
+      simp only [hv, decide_eq_true_eq] at hwf
+      exact ⟨v, hv, column_law hwf.1⟩
+  | mean nan =>
+    cases nan
+    · exact ⟨column_law (by decide +kernel), column_law (by decide +kernel), mean_finalize⟩
+    · exact ⟨column_law (by decide +kernel), column_law (by decide +kernel), nanmean_finalize⟩
+  | var nan std =>
+    cases nan
+    · exact ⟨column_law (by decide +kernel), column_law (by decide +kernel), column_law (by decide +kernel),
+        var_finalize⟩
+    · exact ⟨column_law (by decide +kernel), column_law (by decide +kernel), column_law (by decide +kernel),
+        nanvar_finalize⟩
+  | arg k =>
+    simp only [Family.wf, Bool.and_eq_true, Bool.or_eq_true, beq_iff_eq] at hwf
+    rcases hwf.1 with ((rfl | rfl) | rfl) | rfl
+    · exact ⟨Val.ninf, rfl, column_law (by decide +kernel)⟩
+    · exact ⟨Val.pinf, rfl, column_law (by decide +kernel)⟩
+    · exact ⟨Val.nan, rfl, fun parts _ => combine_nanmax_nanfill parts⟩
+    · exact ⟨Val.nan, rfl, fun parts _ => combine_nanmin_nanfill parts⟩
+
+-- non-vacuity: the table is not empty and contains what one expects
+example : (Generated.registry.filter hasChunk).length = 23 := registry_counts.1
+example : provenBlueprints.lookup "nanvar" = some (.var true false) := by decide +kernel
+example : ∃ b ∈ Generated.registry, b.key = "mean" ∧ b.combine = ["sum", "sum"] ∧ b.finalize = "_mean_finalize" := by
+  decide +kernel
+-- an edited blueprint is rejected: combine "sum" → "max", fill 0 → 1, `_var_finalize` → `_mean_finalize`
+def editedCombine : RegistryRow :=
+  { key := "sum", name := "sum", numpy := ["sum"], chunk := ["sum"], combine := ["max"], fills := ["0"],
+    finalFill := "NA", interDtypes := ["None"], finalDtype := "None", finalize := "None", preprocess := "None",
+    reductionType := "reduce", preservesDtype := false, newDims := "returns_empty_tuple" }
+def editedFill : RegistryRow := { editedCombine with combine := ["sum"], fills := ["1"] }
+def editedFinalizer : RegistryRow :=
+  { key := "var", name := "var", numpy := ["var"], chunk := ["sum_of_squares", "sum", "nanlen"],
+    combine := ["sum", "sum", "sum"], fills := ["0", "0", "0"], finalFill := "nan",
+    interDtypes := ["None", "None", "int64"], finalDtype := "floating", finalize := "_mean_finalize",
+    preprocess := "None", reductionType := "reduce", preservesDtype := false, newDims := "returns_empty_tuple" }
+example : blueprintProven editedCombine = false ∧ blueprintProven editedFill = false
+    ∧ blueprintProven editedFinalizer = false
+    ∧ blueprintProven { editedFill with fills := ["0"] } = true := by decide +kernel
+
+/-! ## E. user-defined aggregations -/
+
+/-- **Same machinery.**  For an ARBITRARY resolved blueprint (any kernel names, any fills — no law assumed), the
+    numpy_groupies engine and any chunking / `split_every`, the map-reduce plan with `_simple_combine` stores in
+    column `j`, slot `g`, the tree fold (with the user's combine kernel `j`) of the per-block values
+    `blockVal chunk[j] fill[j] (members of g in the block)`; `groupby_reduce` then applies `_finalize_results` to it
+    (`userAggregation_runKnown`). -/
+theorem userAggregation_machinery (c : Call) (n : Nat) (chunks : List Nat) (codes : List Int) (vals : List Val)
+    (se : Nat) (heng : c.eng = .npg) (hn : c.ngroups = n) (harg : c.R.isArg = false)
+    (hc : c.R.chunk.length = c.R.combine.length) (hf : c.R.chunk.length = c.R.interFills.length)
+    (hnoarg : ∀ k ∈ c.R.chunk, isArgKernel k = false) (hz : LenFillsZero c.R)
+    (hchunks : chunks ≠ []) (hsum : chunks.sum = codes.length)
+    (hcodes : ∀ c ∈ codes, -1 ≤ c ∧ c < (n : Int)) :
+    simpleCombine c.R true (treeReduce (simpleCombine c.R true) se
+        (blockStage c true chunks (codes.map fun (i : Int) => (some (i : Rat) : Key)) vals))
+      = { groups := rangeKeys n,
+          cols := c.R.combine.mapIdx fun j cmb =>
+            (List.range n).map fun gi =>
+              machineryVal cmb se ((segsOf chunks codes vals).map fun p =>
+                blockVal (c.R.chunk.getD j .sum) (c.R.interFills.getD j Val.nan) (members (Int.ofNat gi) p.1 p.2)) } :=
+  Flox.userAggregation_machinery c n chunks codes vals se heng hn harg hc hf hnoarg hz hchunks hsum hcodes
+
+theorem userAggregation_runKnown (c : Call) (floatData : Bool) (chunks : List Nat) (keys : List Key) (vals : List Val)
+    (h : useGroupedCombine c floatData = false) :
+    runKnown c (.mapreduce true) floatData chunks keys vals
+      = (match finalizeResults c.R
+            (simpleCombine c.R true (treeReduce (simpleCombine c.R true) c.splitEvery
+              (blockStage c true chunks keys vals))) (some (rangeKeys c.ngroups)) true with
+          | .error e => .error e
+          | .ok (gs, vs) => finalReindex c false gs vs) :=
+  Flox.userAggregation_runKnown c floatData chunks keys vals h
+
+/-- built-in aggregations enter the same function after the table lookup -/
+theorem builtin_uses_runResolved (rows : List InitRow) (rq : Request) (plan : Plan) (chunks : List Nat)
+    (labels : List Key) (vals : List Val) :
+    run rows rq plan chunks labels vals
+      = (match findInit rows rq.func rq.dkind (fillKindOf (effective rq).2) ((effective rq).1 > 0) with
+          | none => .unsupported "no-init-row"
+          | some row =>
+            if !row.ok then .err row.err else
+            match row.resolve (effective rq).2 (effective rq).1 rq.ddof with
+            | none => .unsupported "unresolved-row"
+            | some R => runResolved R rq (effective rq).2 plan chunks labels vals) :=
+  run_eq_runResolved rows rq plan chunks labels vals
+
+/-- **Lawful user aggregations obey the same law.**  If each column of the user's blueprint satisfies the column
+    law (`Law`; e.g. a clone of built-in columns under a new name: `column_law`), then for every chunking and every
+    `split_every` the combined intermediates are those of the whole array as a single block. -/
+theorem userAggregation_lawful (c : Call) (n : Nat) (chunks : List Nat) (codes : List Int) (vals : List Val)
+    (se : Nat) (sort : Bool) (heng : c.eng = .npg) (hn : c.ngroups = n) (harg : c.R.isArg = false)
+    (hc : c.R.chunk.length = c.R.combine.length) (hf : c.R.chunk.length = c.R.interFills.length)
+    (hlaw : ∀ j (hj : j < c.R.chunk.length),
+      Law c.R.chunk[j] (c.R.combine[j]'(by omega)) (c.R.interFills[j]'(by omega)))
+    (hnoarg : ∀ k ∈ c.R.chunk, isArgKernel k = false) (hz : LenFillsZero c.R)
+    (hchunks : chunks ≠ []) (hsum : chunks.sum = codes.length) (hlen : codes.length = vals.length)
+    (hcodes : ∀ c ∈ codes, -1 ≤ c ∧ c < (n : Int)) :
+    simpleCombine c.R true (treeReduce (simpleCombine c.R true) se
+        (blockStage c true chunks (codes.map fun (i : Int) => (some (i : Rat) : Key)) vals))
+      = chunkReduce .npg c.R.chunk c.R.interFills (codes.map fun (i : Int) => (some (i : Rat) : Key)) vals
+          (some n) sort :=
+  Flox.userAggregation_lawful c n chunks codes vals se sort heng hn harg hc hf hlaw hnoarg hz hchunks hsum hlen hcodes
+
+/-- the scalar core of it: under a column law the tree fold `machineryVal` is the block value of the concatenation -/
+theorem machinery_collapses_under_law (k c : Kernel) (f : Val) (hlaw : Law k c f) (se : Nat)
+    (parts : List (List Val)) (hne : parts ≠ []) :
+    machineryVal c se (parts.map (blockVal k f)) = blockVal k f parts.flatten :=
+  machineryVal_law k c f hlaw se parts hne
+
+/-- **… and equals the eager result** when the blueprint has the shape of a built-in family under ANY name
+    (`R.shape? = some s` does not look at `R.name`): chunked = eager, including the `ValueError` outcome.
+    Hypotheses as in C02 (`H_absent`, `H_allnan`, `H_minmax`: what `_initialize_aggregation` grants the built-in
+    `nanmax` / `nanmin` by name and a user clone has to request through `min_count`). -/
+theorem userAggregation_lawful_eq_eager (R : Resolved) (s : Shape) (c : Call) (n : Nat) (floatData : Bool)
+    (chunks chunks' : List Nat) (codes : List Int) (vals : List Val)
+    (hR : c.R = R) (heng : c.eng = .npg) (hn : c.ngroups = n) (hknown : c.knownLabels = true)
+    (hshape : R.shape? = some s)
+    (hcodes : ∀ c ∈ codes, -1 ≤ c ∧ c < (n : Int)) (hlen : codes.length = vals.length)
+    (H_absent : ∀ g : Nat, g < n → R.minCount ≥ 1 ∨ members (Int.ofNat g) codes vals ≠ [])
+    (H_allnan : s.needsNaNFill = true → R.minCount ≥ 1 ∨ R.npFill = Val.nan)
+    (H_minmax : s.isNanMinMax = true → R.minCount ≥ 1)
+    (hchunks : chunks ≠ []) (hsum : chunks.sum = codes.length)
+    (hcombine : useGroupedCombine c floatData = false) :
+    runKnown c (.mapreduce true) floatData chunks (codes.map fun (i : Int) => (some (i : Rat) : Key)) vals
+      = runKnown c .eager floatData chunks' (codes.map fun (i : Int) => (some (i : Rat) : Key)) vals :=
+  Flox.mapreduce_dense_eq_eager R s c n floatData chunks chunks' codes vals hR heng hn hknown hshape hcodes hlen
+    H_absent H_allnan H_minmax hchunks hsum hcombine
+
+/-! ### non-vacuity and necessity (user aggregations) -/
+
+/-- a lawful user aggregation: a clone of `nanmean` under a new name (resolved fields) -/
+def myMean : Resolved :=
+  { name := "my_nanmean", numpy := [.nanmean], chunk := [.nansum, .nanlen], combine := [.sum, .sum],
+    interFills := [Val.zero, Val.zero], numpyFills := [Val.nan], finalFill := some Val.nan, userFill := none,
+    minCount := 0, finalize := "mean", ddof := 0, isArg := false }
+
+/-- an unlawful one: chunk "max", combine "sum" -/
+def maxSum : Resolved :=
+  { name := "max_then_sum", numpy := [.max], chunk := [.max], combine := [.sum], interFills := [Val.zero],
+    numpyFills := [Val.nan], finalFill := some Val.nan, userFill := none, minCount := 0, finalize := "none", ddof := 0,
+    isArg := false }
+
+def exRq : Request :=
+  { func := "user", dkind := "-", fill := none, minCount := none, ddof := 0, eng := .npg, sort := true,
+    expected := none, known := true, splitEvery := 2, floatData := true }
+
+def exLabels : List Key := [some 0, some 1, some 0, some 1, some 0, some 1]
+def exVals : List Val := [.fin 1, .fin 5, .fin 3, .fin 5, .nan, .fin 5]
+
+/-- decidable comparison of an outcome with expected labels / values -/
+def okIs (o : Outcome) (gs : List Key) (vs : List Val) : Bool :=
+  match o with
+  | .ok g v => decide (g = gs) && decide (v = vs)
+  | _ => false
+
+-- the clone: chunked (3 blocks, binary tree) = eager = 2 (nanmean of 1, 3, NaN)
+example : okIs (runResolved myMean exRq none (.mapreduce true) [2, 2, 2] exLabels exVals)
+    [some 0, some 1] [.fin 2, .fin 5] = true := by decide +kernel
+example : okIs (runResolved myMean exRq none .eager [] exLabels exVals) [some 0, some 1] [.fin 2, .fin 5] = true := by
+  decide +kernel
+
+/-- without the law the chunked result of a user aggregation depends on the chunking: the machinery faithfully sums
+    the block maxima (1 + 3 + NaN-propagating… here 1 + 3 + 2 = 6 ≠ max = 3) -/
+theorem unlawful_userAggregation_counterexample :
+    okIs (runResolved maxSum exRq none (.mapreduce true) [2, 2, 2] exLabels
+        [.fin 1, .fin 5, .fin 3, .fin 5, .fin 2, .fin 5]) [some 0, some 1] [.fin 6, .fin 15] = true
+    ∧ okIs (runResolved maxSum exRq none (.mapreduce true) [6] exLabels
+        [.fin 1, .fin 5, .fin 3, .fin 5, .fin 2, .fin 5]) [some 0, some 1] [.fin 3, .fin 5] = true := by
+  decide +kernel
+
+-- `machineryVal` on concrete per-block values: 5 blocks, split_every 2 → a tree of depth 3
+example : machineryVal .sum 2 [.fin 1, .fin 2, .fin 3, .fin 4, .fin 5] = .fin 15 := by decide +kernel
+example : treeVals .sum 2 [.fin 1, .fin 2, .fin 3, .fin 4, .fin 5] = [.fin 10, .fin 5] := by decide +kernel
+
+/-! ## F. further restatements (columns, finalizers, pair laws, generated table) -/
+
 
 /-! ## §1 chunk / combine decomposition of one column -/
 
@@ -61,7 +457,7 @@ theorem combine_nanlast (parts : List (List Val)) :
     `p` in which the group is absent (`p = []`), or – for a NaN-skipping chunk kernel – one in which all its members
     are NaN, does not change the combined value.  `l₁ ++ l₂ ≠ []` (there is at least one other block) is necessary
     for `nanmax` / `nanmin`, see the `example` at the end. -/
-theorem absent_block_neutral (k c : Kernel) (f : Val) (h : (k, c, f) ∈ floatColumns)
+theorem absent_block_neutral_anywhere (k c : Kernel) (f : Val) (h : (k, c, f) ∈ floatColumns)
     (p : List Val) (hp : p = [] ∨ (k.skipsNaN = true ∧ ∀ x ∈ p, x.isNaN = true))
     (l₁ l₂ : List (List Val)) (hne : l₁ ++ l₂ ≠ []) :
     combineVal c ((l₁ ++ p :: l₂).map (blockVal k f)) = combineVal c ((l₁ ++ l₂).map (blockVal k f)) :=
